@@ -4,7 +4,7 @@
    correspondence shards (C18/Corr.v).  Carrier: R; [cx] = R * R. *)
 From Coq Require Import Reals List Bool Arith.
 From Verif Require Import Base.Num Base.Vec Lib.Axis C18.Model C18.ModelW C18.ModelH C18.ProofsGrid C18.ProofsDFT C18.ProofsCx
-  C18.ProofsAxis C18.ProofsFT C18.ProofsTrue C18.ProofsHC C18.ProofsTrueHC C18.ProofsSum C18.ProofsW C18.ProofsH C18.ProofsHN.
+  C18.ProofsAxis C18.ProofsFT C18.ProofsTrue C18.ProofsHC C18.ProofsTrueHC C18.ProofsSum C18.ProofsW C18.ProofsH C18.ProofsHN C18.ProofsHI.
 Import ListNotations.
 Local Open Scope R_scope.
 
@@ -344,3 +344,30 @@ Theorem haar_nd_on_1d_is_haar : forall (L : nat) (x : list R),
 Proof. exact (haar_nd_1d (sqrt 2)). Qed.
 Example even_chain_nd_example : even_chain_nd 2 [4; 3; 8]%nat [2; 0]%nat.
 Proof. exact even_chain_nd_example_holds. Qed.
+
+(* (e) the N-d inverse (model ihaar_nd, compared with W.inverse by the correspondence) IS a right
+       inverse of W on every coefficient vector -- any dimension, axes list and level count (even
+       chains) -- so (c), (d) hold without any premise about the inverse: *)
+Theorem haar_nd_inverse_is_right_inverse : forall (axes : list nat) (L : nat) (shape : list nat) (c : list R),
+  even_chain_nd L shape axes -> length c = haar_nd_size L shape axes ->
+  length (ihaar_nd (sqrt 2) L shape axes c) = prodn shape /\
+  haar_nd (sqrt 2) L shape axes (ihaar_nd (sqrt 2) L shape axes c) = c.
+Proof. exact ihaar_nd_right_inverse_sqrt2. Qed.
+Print Assumptions haar_nd_inverse_is_right_inverse.
+
+Theorem wavelet_nd_adjoint_identity : forall (L : nat) (shape axes : list nat) (sides : list R) (x c : list R),
+  even_chain_nd L shape axes -> cell_volume sides <> 0 ->
+  length x = prodn shape -> length c = haar_nd_size L shape axes ->
+  dot (haar_nd (sqrt 2) L shape axes x) c
+  = inner_dom sides x (vscal (1 / cell_volume sides) (ihaar_nd (sqrt 2) L shape axes c)).
+Proof. exact haar_nd_weighted_adjoint_full. Qed.
+Print Assumptions wavelet_nd_adjoint_identity.
+
+Theorem wavelet_nd_adjoint_scale_is_full_cell_volume : forall (L : nat) (shape axes : list nat)
+    (sides : list R) (s : R) (x c : list R),
+  even_chain_nd L shape axes -> cell_volume sides <> 0 ->
+  length x = prodn shape -> length c = haar_nd_size L shape axes ->
+  dot (haar_nd (sqrt 2) L shape axes x) c <> 0 ->
+  dot (haar_nd (sqrt 2) L shape axes x) c = inner_dom sides x (vscal s (ihaar_nd (sqrt 2) L shape axes c)) ->
+  s = 1 / cell_volume sides.
+Proof. exact haar_nd_adjoint_scale_full. Qed.
